@@ -37,6 +37,9 @@ def run(ctx):
         for i in range(n):
             c = E.make_case(rng, s, size=rng.choice([0.3, 1.0]), gen_api=True, klass='generated-api')
             cases.append(c)
+        # create-by-arguments: every field present, <T>_create(B, all fields) incl. struct arguments with force_align up to 256
+        for i in range(25 if not ctx.thorough else 300):
+            cases.append(E.make_case(rng, s, maxdepth=2, size=0.3, gen_api=True, full=True, klass='generated-create-all-fields'))
         if s.unions:        # more union-vector builds (generated <Member>_push* variants, strings with NULs)
             for i in range(n // 2):
                 cases.append(E.make_case(rng, s, size=rng.choice([1.0, 2.5]), gen_api=True, klass='generated-api-unions'))
